@@ -260,7 +260,7 @@ def resource_programs():
 # (for include directives)
 STRING_FORMS = [("bslash", "a\\\\b", "a\\b"), ("bslash_end", "ab\\\\", "ab\\"), ("bslash_t", "a\\\\tb", "a\\tb"),
                 ("quote", "a\\\"b", "a\"b"), ("uni", "a\\u00e9b", "a\u00e9b"), ("raw_uni", "a\u00e9b", "a\u00e9b"),
-                ("hash", "a#b", "a#b"), ("quote_end", "ab\\\"", "ab\""), ("bslash_u", "a\\\\u0041", "a\\u0041")]
+                ("hash", "a#b", "a#b"), ("percent", "a%db %s 50%", "a%db %s 50%"), ("percent2", "q%%long", "q%%long"), ("quote_end", "ab\\\"", "ab\""), ("bslash_u", "a\\\\u0041", "a\\u0041")]
 
 
 def string_position_programs():
